@@ -464,6 +464,18 @@ def make_enc0_result(alg, kid, key, nonce, ext_aad, plaintext):
     return (TAG_ENC0, cw.enc([prot, {4: kid, 5: nonce}, None])), ciphertext
 
 
+def make_enc_kw_result(alg, recipients, cek, nonce, ext_aad, plaintext, kw_alg=-5):
+    ''' COSE_Encrypt with the content key wrapped (AES key wrap) once per recipient.
+    :param recipients: list of (kid, key-encryption key or None); None stands for a recipient nobody can use (random wrap) '''
+    prot = cw.enc({1: alg})
+    ciphertext = gcm_encrypt(cek, nonce, plaintext, enc_aad('Encrypt', prot, ext_aad))
+    recips = []
+    for (kid, kek) in recipients:
+        wrapped = kw_wrap(kek, cek) if kek is not None else bytes((idx * 29 + 3) & 0xFF for idx in range(len(cek) + 8))
+        recips.append([b'', {1: kw_alg, 4: kid}, wrapped])
+    return (TAG_ENC, cw.enc([prot, {5: nonce}, None, recips])), ciphertext
+
+
 def selftest():
     problems = []
     # RFC 9053-style sanity: HMAC 256/256 over a known structure equals hmac module output (definition check) and
